@@ -19,6 +19,7 @@ class ThisPredicate[T](Predicate[T]):
         self.frame = inspect.currentframe()
         if self.this_predicate:
             return self.this_predicate(x)
+        del self.this_predicate  # a failed lookup is not remembered: a later caller may be able to resolve it
         raise ValueError(f"Could not find 'this' predicate {self}")
 
     def __repr__(self) -> str:
